@@ -51,7 +51,8 @@ ASSUMPTIONS = [
     "all store instances are opened on the same directory string; the application does not edit `source` or `id` of stored objects",
 ]
 
-IDS = ["a", "A", "b", "dir/../x", "ü/€\\𝒳 ?#%", "https://example.org/sm/1?x=1#frag"]
+# (round 6) ... and two spellings of one text that are canonically equivalent (composed / decomposed) but different identifiers
+IDS = ["a", "A", "b", "dir/../x", "ü/€\\𝒳 ?#%", "https://example.org/sm/1?x=1#frag", "caf\u00e9", "cafe\u0301"]
 MORE_IDS = ["/", "..", "a/", ".json", "a ", "‮abc", "x" * 300, "json", "nosj."]
 
 
@@ -491,8 +492,9 @@ class Sched:
 class ILock:
     """Stands in for threading.Lock: yield points before acquire (stuttering while held) and before release."""
 
-    def __init__(self, sched: Sched):
+    def __init__(self, sched: Sched, post: bool = False):
         self.s = sched
+        self.post = post          # oracle only: one more yield point AFTER the release (what follows a `with lock:` block is not atomic with it)
 
     def acquire(self, *a, **kw):
         self.s.yield_("acq")
@@ -504,6 +506,8 @@ class ILock:
     def release(self):
         self.s.yield_("rel")
         self.s.holder = None
+        if self.post:
+            self.s.yield_("post")
 
     def __enter__(self):
         self.acquire()
@@ -543,7 +547,7 @@ def make_icache(sched: Sched, log: List[Any]):
 CONC_ID = "id/π"
 
 
-def run_schedule(cfg: Dict[str, Any], sched_list: List[int]) -> Dict[str, Any]:
+def run_schedule(cfg: Dict[str, Any], sched_list: List[int], fine: bool = False) -> Dict[str, Any]:
     """cfg = {file, cache, bound0, fresh0, p0, p1}.  Runs the two calls on ONE store instance under the schedule."""
     _, lf = _sdk()
     d = tempfile.mkdtemp(prefix="verif-c14c-")
@@ -571,7 +575,7 @@ def run_schedule(cfg: Dict[str, Any], sched_list: List[int]) -> Dict[str, Any]:
         if r0 is not None:
             weakref.WeakValueDictionary.__setitem__(ic, CONC_ID, r0)
         store._object_cache = ic
-        store._object_cache_lock = ILock(sch)
+        store._object_cache_lock = ILock(sch, post=fine)
         results: Dict[int, Any] = {}
         loaded_by: Dict[int, int] = {}
 
@@ -623,7 +627,7 @@ def run_schedule(cfg: Dict[str, Any], sched_list: List[int]) -> Dict[str, Any]:
         for t in sched_list:
             sch.step(t)
             trace.append(snap())
-        for t in [0] * 8 + [1] * 8 + [0] * 8:
+        for t in [0] * 10 + [1] * 10 + [0] * 10:
             sch.step(t)
         done = sch.at[0] == "done" and sch.at[1] == "done"
         for th in ths:
@@ -650,7 +654,10 @@ def run_schedule(cfg: Dict[str, Any], sched_list: List[int]) -> Dict[str, Any]:
                 "same": (len(objs) < 2 or objs[0] is objs[1]),
                 "cached_is_result": all(o is cur for o in objs),
                 "refreshed": all(ver_of(o) == filever for o in objs),
-                "filever": filever}
+                "filever": filever,
+                # an add that returned normally made ITS object the live one: a retrieval that returns an object returns that one
+                "added_is_result": all(o is xs[t] for t in (0, 1) if results.get(t, ("", None))[0] == "unit" for o in objs),
+                "added_is_cached": all(cur is xs[t] for t in (0, 1) if results.get(t, ("", None))[0] == "unit")}
     finally:
         shutil.rmtree(d, ignore_errors=True)
 
@@ -923,15 +930,18 @@ def check_sequence(ops: List[List[Any]]) -> Optional[C.Failing]:
             gc.enable()
 
 
-def check_schedule(cfg: Dict[str, Any], sched: List[int]) -> Optional[C.Failing]:
+def check_schedule(cfg: Dict[str, Any], sched: List[int], fine: bool = False) -> Optional[C.Failing]:
+    """`fine`: with a yield point after every lock release as well (finer than the model's steps; oracle only)"""
     was = gc.isenabled()
     gc.disable()
     try:
-        r = run_schedule(cfg, sched)
+        r = run_schedule(cfg, sched, fine)
     finally:
         if was:
             gc.enable()
     case = {"kind": "conc", "cfg": cfg, "sched": sched}
+    if fine:
+        case["fine"] = True
     tag = f"{cfg['p0']}-{cfg['p1']}"
     if not r["done"]:
         return C.Failing(f"lfs:conc:{tag}:not-terminating", "a thread did not finish", case, r["res"])
@@ -951,6 +961,9 @@ def check_schedule(cfg: Dict[str, Any], sched: List[int]) -> Optional[C.Failing]
     if not r["refreshed"]:
         return C.Failing(f"lfs:conc:{tag}:not-refreshed", "a retrieval returned an object that does not hold the stored version", case,
                          r["res"], r["filever"])
+    if [x for x in r["res"] if x and x[0] == "unit"] and not (r["added_is_result"] and r["added_is_cached"]):
+        return C.Failing(f"lfs:conc:{tag}:added-object-not-the-live-one", f"add() returned normally, but the retrieval returned {r['res']} and the "
+                         f"instance caches {r['cache']}: a second live copy beside the added object", case, [r["res"], r["cache"]])
     return None
 
 
@@ -1012,6 +1025,15 @@ def oracle(ctx: C.Ctx, cov: C.Coverage) -> List[C.Failing]:
             if f and f.sig not in sigs:
                 sigs.add(f.sig)
                 out.append(f)
+        if "add" in (cfg["p0"], cfg["p1"]):
+            # (round 6) finer than the model's steps: a yield point after every lock release too; one thread runs k steps, then the
+            # other one to its end, then the first one finishes - for every k, both ways round, plus a sample of interleavings
+            directed = [[a] * k + [1 - a] * 12 for a in (0, 1) for k in range(1, 10)]
+            for s in directed + rng.sample(use, min(len(use), 25)):
+                f = check_schedule(cfg, s, fine=True)
+                if f and f.sig not in sigs:
+                    sigs.add(f.sig)
+                    out.append(f)
     cov.extra["oracle_histories"] = ctx.budget(150, 800) + 4
     n_rich = ctx.budget(20, 600)
     for i in range(-1, n_rich):
@@ -1096,7 +1118,7 @@ def search(ctx: C.Ctx, disagreements, broken) -> List[C.Failing]:
 
 def replay(case) -> Optional[C.Failing]:
     if case.get("kind") == "conc":
-        return check_schedule(case["cfg"], case["sched"])
+        return check_schedule(case["cfg"], case["sched"], case.get("fine", False))
     if case.get("kind") == "rich":
         return check_rich(case["seed"], case["index"])
     return check_sequence(case["ops"])
